@@ -130,7 +130,9 @@ where
     let diff_pattern = format!(r"^\+\+\+\s(?:.*?/){{{skip_prefix}}}(\S*)");
     let diff_pattern = Regex::new(&diff_pattern).unwrap();
 
-    let lines_pattern = Regex::new(r"^@@.*\+(\d+)(,(\d+))?").unwrap();
+    // The section text after the second `@@` of a hunk header is arbitrary source text and may
+    // itself contain `+<digits>`: only read the range that directly follows the pre-image range.
+    let lines_pattern = Regex::new(r"^@@ -\d+(?:,\d+)? \+(\d+)(,(\d+))?").unwrap();
 
     let file_filter = Regex::new(&format!("^{file_filter}$"))?;
 
